@@ -284,7 +284,9 @@ fn process_concat(expr: &rq::Expr, ctx: &mut Context) -> Result<sql_ast::Expr> {
         let concat_args = collect_concat_args(expr);
 
         let mut iter = concat_args.into_iter();
-        let first_expr = iter.next().unwrap();
+        let Some(first_expr) = iter.next() else {
+            return Err(Error::new_simple("std.concat needs at least one argument").with_span(expr.span));
+        };
         let mut current_expr = translate_expr(first_expr.clone(), ctx)?.into_ast();
 
         for arg in iter {
@@ -329,7 +331,7 @@ fn collect_concat_args(expr: &rq::Expr) -> Vec<&rq::Expr> {
 /// Translate expr into a BETWEEN statement if possible, otherwise returns the expr unchanged.
 fn try_into_between(expr: rq::Expr, ctx: &mut Context) -> Result<Option<sql_ast::Expr>> {
     match expr.kind {
-        rq::ExprKind::Operator { name, args } if name == "std.and" => {
+        rq::ExprKind::Operator { name, args } if name == "std.and" && args.len() == 2 => {
             let [a, b]: [_; 2] = args.try_into().unwrap();
 
             match (a.kind, b.kind) {
@@ -342,7 +344,11 @@ fn try_into_between(expr: rq::Expr, ctx: &mut Context) -> Result<Option<sql_ast:
                         name: b_name,
                         args: b_args,
                     },
-                ) if a_name == "std.gte" && b_name == "std.lte" => {
+                ) if a_name == "std.gte"
+                    && b_name == "std.lte"
+                    && a_args.len() == 2
+                    && b_args.len() == 2 =>
+                {
                     let [a_l, a_r]: [_; 2] = a_args.try_into().unwrap();
                     let [b_l, b_r]: [_; 2] = b_args.try_into().unwrap();
 
